@@ -48,7 +48,10 @@ GROUPS['par'] = Group('par', filt_par, c=['props/C17/contracts_par.c'], repo_cpp
 H = 'src/goldilocks_base_field.hpp'
 _seed = int(os.environ.get('VERIF_SEED', '0') or 0)
 _rng = random.Random(_seed)
-_quick = set(_rng.sample(range(len(TABLE)), 24))
+# quick tier: the fixed list props/C17/quick_ok.json (overloads whose units were measured to finish well inside the budget), thorough: everything
+_qp = os.path.join(HERE, 'quick_ok.json')
+_QOK = set(json.load(open(_qp))) if os.path.exists(_qp) else None
+_quick = set(range(len(TABLE))) if os.environ.get('VF_C17_SURVEY') else (set(i for i, t in enumerate(TABLE) if t['uid'] in _QOK) if _QOK is not None else set(_rng.sample(range(len(TABLE)), 24)))
 UNITS = []
 for i, t in enumerate(TABLE):
     mul = t['op'] == 'mul'
@@ -59,7 +62,7 @@ for i, t in enumerate(TABLE):
     if t.get('has_idx') or t.get('has_stride'):
         # quick: shapes 1 and 3 ; thorough: all four concrete shapes, plus the fully symbolic unit for the stride-only overloads
         for _p in (1, 2, 3, 4):
-            c2 = dict(common); c2['tier'] = common['tier'] if _p in (1, 3) else 'thorough'; c2['timeout'] = 300
+            c2 = dict(common); c2['tier'] = common['tier'] if _p in ((1,) if os.environ.get('VF_C17_SURVEY') else (1, 3)) else 'thorough'; c2['timeout'] = 200 if os.environ.get('VF_C17_SURVEY') else 300
             UNITS.append(Unit('%s@shape%d' % (t['uid'], _p), '%s_s%d' % (g, _p), t['uid'], bounded='strides / index lists fixed to concrete shape %d of 4 (all operand values symbolic)' % _p, **c2))
         if not t.get('has_idx'):
             c3 = dict(common); c3['tier'] = 'thorough'; c3['timeout'] = 900
